@@ -86,8 +86,8 @@ def tlc_jobs(ctx, acc):
         jobs[name] = dict(module="PartialExt", cfg=vlib.cfg_text(spec="GenSpec", constants=c, invariants=["Emit"]), timeout=900, heap="6g",
                           mode="sim" if sim else "mc", simulate=("num=%d" % sim) if sim else None, depth=depth, workers=1 if sim else None)
 
-    gen("gen-bfs-count", 5 if th else 4, Groups='{"g1", "g2"}', Bursts="{1, 4}", CTtl=3, Acts='{"pub", "rpc", "hb", "close"}')
-    gen("gen-bfs-all", 4 if th else 3, Groups='{"g1", "g2"}', Parts="{0, 1}", Bursts="{1, 4}", CTtl=3, Acts=ALL_ACTS)
+    gen("gen-bfs-count", 4, Groups='{"g1", "g2"}', Bursts="{1, 4}", CTtl=3, Acts='{"pub", "rpc", "hb", "close"}')
+    gen("gen-bfs-all", 3, Groups='{"g1", "g2"}', Parts="{0, 1}", Bursts="{1, 4}", CTtl=3, Acts=ALL_ACTS)
     gen("gen-walks", 14, sim=6000 if th else 350, depth=16, Peers='{"p1", "p2", "p3"}', Topics='{"t1", "t2"}', Groups='{"g1", "g2", "g3"}',
         Parts="{0, 1}", Bursts="{1, 2, 4}", CTtl=3, CLimT=3, CLimP=2, Acts=ALL_ACTS)
     if os.environ.get("X04_DEV_SKIP_MC"):       # development aid only (mutation trials)
@@ -251,7 +251,7 @@ def obj_scenarios(ctx, pools):
     rng = random.Random(ctx.seed * 7919 + 4)
     th = ctx.thorough
     scns = obj_directed()
-    lim = {"gen-bfs-count": 30000 if th else 1500, "gen-bfs-all": 30000 if th else 1500, "gen-walks": 6000 if th else 350}
+    lim = {"gen-bfs-count": 50000 if th else 1500, "gen-bfs-all": 50000 if th else 1500, "gen-walks": 6000 if th else 350}
     exhaustive = {}
     for n in ("gen-bfs-count", "gen-bfs-all", "gen-walks"):
         pool = list(pools[n])
@@ -417,7 +417,7 @@ OBJ_OBLIGATIONS = ["pub-new", "pub-refresh", "pub-converts-counted", "pub-conver
                    "rpc-app-error-existing-group",
                    "rpc-ignored-by-app", "metadata-merged", "expire-ttl", "expire-empty", "expire-counted", "expire-stale", "hb-survivor",
                    "close-removes-state", "close-resets-counter", "gossip-offered", "gossip-republished", "gossip-skips-peer-initiated",
-                   "gossip-all-tracked", "count-drift-seen", "topic-dies"]
+                   "gossip-all-tracked", "topic-dies"]
 
 WHAT = {
     "P_X04_a": "group lifecycle", "P_X04_b": "peer-initiated counters", "P_X04_c": "peer-initiated limits / dispatch of the RPC",
@@ -470,7 +470,7 @@ def node_tlc_jobs(ctx, jobs):
         mc("mc-node-dev-" + dev, [prop], NDev='"%s"' % dev, **extra)
     if ctx.thorough:
         mc("mc-node-ideal-2peers", NODE_INVS, timeout=1500, NPeers='{"p1", "p2"}', MaxMisb=1)
-    L = 6 if ctx.thorough else 5
+    L = 5
     jobs["gen-node"] = dict(module="PartialNode", timeout=900, heap="6g",
                             cfg=vlib.cfg_text(spec="NGenSpec", constants=nconsts(NAsFound=True, NMaxLen=L, MaxMisb=1), invariants=["NEmit"]))
 
@@ -820,10 +820,35 @@ NODE_OBLIGATIONS = ["hello-with-ext", "hello-v13-no-local-ext", "hello-old-proto
                     "inbound-closed-record-dropped", "peer-reconnected", "partial-rpc-dispatched", "partial-rpc-from-peer-without-ext",
                     "partial-rpc-without-local-ext", "partial-rpc-in-first-rpc", "partial-rpc-over-limit", "test-rpc-dispatched", "test-rpc-ignored", "test-rpc-sent",
                     "publish-partial-sent", "publish-partial-not-enabled", "publish-partial-with-message", "publish-partial-metadata-only",
-                    "mesh-peer-excluded-from-partial", "partial-to-peer-without-ext-seen", "supporter-gets-metadata", "gossip-wired", "gossip-rpc-sent",
-                    "expiry-wired", "ttl-countdown-wired", "close-wired", "close-leak-seen", "state-without-outbound-stream-seen",
+                    "mesh-peer-excluded-from-partial", "requester-without-ext-in-mesh", "supporter-gets-metadata", "gossip-wired", "gossip-rpc-sent",
+                    "expiry-wired", "ttl-countdown-wired", "close-wired", "outbound-closed-after-inbound", "outbound-closed-inbound-alive",
+                    "partial-rpc-without-outbound-stream", "partial-rpc-from-old-protocol-peer-with-ext",
                     "full-message-suppressed", "full-message-sent", "requester-served-because-node-does-not-support", "ihave-sent", "idontwant-sent",
                     "idontwant-suppressed"]
+
+
+# ------------------------------------------------------------------------------------------------ the bitmap package
+def bitmap_stage(ctx, acc):
+    outp = os.path.join(ctx.work, "bitmap.trace.ndjson")
+    r = vlib.run_go(ctx, "./drivers/x04/", "^TestX04Bitmap$", env={"VERIF_OUT": outp}, timeout=600, name="bitmap")
+    if r["rc"] != 0 or not os.path.exists(outp):
+        why = lib_panic(r["out"])
+        if why:
+            vlib.add_violation(ctx, "P_X04_d", {"level": "bitmap", "kind": "panic", "where": why[:80]}, "partialmessages/bitmap panics: %s" % why, {"log": r["log"]})
+            return [], 0
+        raise vlib.Inconclusive("bitmap driver failed (rc=%s, see %s)" % (r["rc"], r["log"]))
+    rows = vlib.read_ndjson(outp)
+    res = vlib.run_tlc(ctx, FAMILY, "BitmapTrace", "BitmapTrace.cfg", mode="trace", files={"trace.ndjson": outp}, timeout=600, name="tv-bitmap", heap="2g")
+    if res.hw is None or res.hw[0] < res.hw[1] or res.violated or res.timed_out:
+        raise vlib.Inconclusive("bitmap trace validation did not consume its input (hw=%s errors=%s, see %s/tlc.out)" % (res.hw, res.errors[:2], res.dir))
+    acc["states"] += res.distinct
+    kinds = {}
+    for row in rows:
+        kinds[row["e"]] = kinds.get(row["e"], 0) + 1
+    if not (kinds.get("merge", 0) >= 900 and kinds.get("set", 0) >= 200 and kinds.get("clear", 0) >= 200):
+        raise vlib.Inconclusive("bitmap driver recorded too little: %s" % kinds)
+    by_i = {row["i"]: row for row in rows}
+    return [dict(v, line=by_i.get(v["i"])) for v in res.printed("VIOL")], len(rows) - 1
 
 
 # ------------------------------------------------------------------------------------------------ the check
@@ -852,6 +877,14 @@ def run(ctx):
     pools = tlc_jobs(ctx, acc)
     scns, exhaustive = obj_scenarios(ctx, pools)
     nscns, nexh = node_scenarios(ctx, pools["gen-node"])
+    if os.environ.get("X04_DEV_NODE_ONLY"):      # development aid only: many generated node scenarios, few object runs
+        scns = scns[:30]
+        rng = random.Random(ctx.seed)
+        pool = list(pools["gen-node"])
+        rng.shuffle(pool)
+        nscns = node_directed() + [node_from_history(e, i + ctx.seed) for i, e in enumerate(pool[:int(os.environ["X04_DEV_NODE_ONLY"])])]
+        for i, x in enumerate(nscns):
+            x["id"] = i
     exhaustive["gen-node"] = nexh
     ctx.log("replaying %d call sequences on the real extension object and %d scenarios on the real node" % (len(scns), len(nscns)))
     with cf.ThreadPoolExecutor(max_workers=2) as ex:
@@ -866,6 +899,15 @@ def run(ctx):
     per_sig = {}
     report(ctx, "obj", viols, lambda i: runs[i], per_sig)
     report(ctx, "node", nviols, lambda i: nruns[i], per_sig)
+    bviols, bcalls = bitmap_stage(ctx, acc)
+    for v in bviols:
+        sig = {"level": "bitmap", "kind": v["kind"]}
+        key = (v["pred"], json.dumps(sig, sort_keys=True))
+        per_sig[key] = per_sig.get(key, 0) + 1
+        if per_sig[key] <= 1:
+            vlib.add_violation(ctx, v["pred"], sig, "partialmessages/bitmap: %s on call %s" % (v["kind"], json.dumps(v.get("line"))[:400]), {"level": "bitmap", "call": v.get("line")})
+        else:
+            ctx.violations.append({"pred": v["pred"], "sig": sig, "detail": "", "replay": ""})
     hits = {}
     for s in steps + nsteps:
         for t in s["tags"]:
@@ -897,7 +939,7 @@ def run(ctx):
         samples.append({"level": "node", "scenario": {"src": s0["src"], "cfg": s0["cfg"], "acts": s0["acts"][:12]},
                         "trace": [{k: v for k, v in r.items() if k in ("i", "t", "act", "hb", "out", "x")} for r in l0[1:5]]})
     cov = {"states": acc["states"], "transitions": acc["transitions"] + nlines + nnlines, "traces_validated_against_impl": len(runs) + len(nruns),
-           "samples": samples, "evaluations": len(steps) + len(nsteps), "distinct_nontrivial": len(nontrivial) + len(nnontrivial),
+           "samples": samples, "evaluations": len(steps) + len(nsteps) + bcalls, "bitmap_calls": bcalls, "distinct_nontrivial": len(nontrivial) + len(nnontrivial),
            "rule": "one evaluation = one recorded call on the real extension object judged by PartialTrace (groups, counters, limit decision, RPCs, callbacks) or one step "
                    "of the real node judged by PartialNodeTrace (frames, handshake records, penalty, dispatch, suppression, the extension's bookkeeping); a scenario is "
                    "non-trivial with at least two of publish / RPC / close / gossip (object) and always (node: every scenario carries a handshake); distinct by (configuration, actions)",
@@ -916,4 +958,5 @@ def run(ctx):
         "gossip targets are determined only while a topic has at most Dlazy = 2 non-mesh candidates (otherwise the run is inconclusive, never a verdict)",
         "for an RPC that names a group without state the reference follows the decision the code took and X04.c judges the decision against the groups that really count; "
         "where a listed finding explains a deviation (as-found-...) the reference follows the node so that later steps are still judged",
-        "findings X04-F1..F5 are reported as known findings; every other failure of the same predicates is a violation"])
+        "partialmessages/bitmap (Merge, Set, Clear, Get, OnesCount, IsZero) is judged on all pairs / indices over 31 bitmaps of 0..2 bytes against set union / insertion / removal",
+        "findings X04-F1..F6 are reported as known findings; every other failure of the same predicates is a violation"])
